@@ -805,7 +805,6 @@ func cursorLoop(c *Ctx, f *ssa.Function, l *ssaLoop) (bool, string) {
 	return true, "every cycle through the header calls an advancing method of the cursor; rewinds lie only on paths that leave the loop"
 }
 
-
 // ---- must-be-non-nil dataflow for the nullable URL components ----
 
 type nnKey struct {
@@ -1051,7 +1050,6 @@ func (r *nnResult) at(b *ssa.BasicBlock, idx int) map[nnKey]bool {
 	}
 	return st
 }
-
 
 // loadOfAnyField: v is *(&p.<field>) for the given parameter p.
 func loadOfAnyField(v ssa.Value, p *ssa.Parameter) (string, bool) {
